@@ -19,10 +19,12 @@ MANIFEST = dict(
          '(example_roundtrip_partial, example_roundtrip_wire_partial, example_union_roundtrip_partial) the document computed for a '
          'reference-free example over scalar members decodes strictly (json_compat_obj_decode) and json_compat_obj_encode gives its '
          'members back; (example_union_null_struct_roundtrip) a union example `t = null` for a member of nullable struct type is '
-         'accepted, is the tag alone, and round-trips. The full statements are FALSE of the code; the excluded cases are proved as witnesses on the model '
-         '(default_pattern_witness: compile-time re.match is a prefix match, the runtime matches the whole string; '
-         'default_timestamp_witness / default_bytes_witness: the default stays text; example_bool_for_int_witness) and re-found on the '
-         'real code by the direct oracle. Tied to the code by differential runs (real compiler, real generated classes, real '
+         'accepted, is the tag alone, and round-trips. The full statements are FALSE of the code for Timestamp / Bytes defaults; the excluded '
+         'cases are proved as witnesses on the model (default_timestamp_witness / default_bytes_witness: the default stays text) and '
+         're-found on the real code by the direct oracle. Since the repairs of String.check (fullmatch), _BoundedInteger / '
+         '_BoundedFloat.check (no booleans, integers only when they convert to a double exactly) and Bytes.check_example (canonical '
+         'base64) the model asks the runtime\'s own pattern test, default_valid_partial no longer assumes a pattern law, and '
+         'default_pattern_witness / example_bool_for_int_witness are regression statements: the compiler refuses those inputs. Tied to the code by differential runs (real compiler, real generated classes, real '
          'serializer vs the compiled model) on a fixed grid of one-field / one-member specs (types x literals around every bound), '
          'random struct chains, hand-written seeds and generated specs; the direct oracle evaluates the property itself on the real '
          'artefacts for every defaulted field (read on an instance of the declaring class and of every class that inherits it) '
